@@ -13,6 +13,6 @@ if ! (cd "$D" && go build ./... 2>&1 | tail -3); then echo BUILD-FAILED; exit 3;
 T=$(cd "$D" && go test -vet=off -count=1 ./... 2>&1 | grep -v "^ok\|no test files")
 if [ -n "$T" ]; then echo "REPO-TESTS-FAIL (mutant not admissible):"; echo "$T" | head -5; fi
 for P in "$@"; do
-  OUT=$(cd /verif && VERIF_REPO="$D" VERIF_REPLAY_KEEP=1 ./check "$P" 2>&1); RC=$?
+  OUT=$(cd "$(dirname "$(readlink -f "$0")")/.." && VERIF_REPO="$D" VERIF_REPLAY_KEEP=1 ./check "$P" 2>&1); RC=$?
   echo "$P rc=$RC $(echo "$OUT" | grep -m1 -A1 'VIOLATION\|OK property\|INCONCLUSIVE' | tr '\n' ' ' | cut -c1-260)"
 done
